@@ -52,6 +52,12 @@
 (*  excas an `except .. as x` handler ran in a function where x is captured by an inner      *)
 (*        function/class or declared global/nonlocal (pyscript binds x in the function's    *)
 (*        own table and removes the variable's cell afterwards)                             *)
+(*  ndflt a definition inside a function evaluates a default expression that mentions a     *)
+(*        variable of a function further out (pyscript captures only names mentioned in     *)
+(*        bodies and decorators, not in the default expressions of inner definitions)       *)
+(* and two marks for behaviour that is not demanded here: sv (below) and                    *)
+(*  xdel  the target of `except .. as x` was deleted inside the handler (the handler's exit  *)
+(*        protocol is C02's business)                                                       *)
 EXTENDS PyBind, Integers, TLC
 
 Unbound == [k |-> "unbound"]
@@ -247,8 +253,13 @@ EvalList(P, M, f, es, i, acc) ==
        IF IsExc(a.r) THEN a ELSE EvalList(P, a.M, f, es, i + 1, Append(acc, a.r))
 
 \* function object for code c created in frame f: positional defaults, then keyword-only defaults
-MakeFn(P, M, f, c) ==
-  LET d1 == EvalList(P, M, f, P.codes[c].dflt, 1, <<>>) IN
+MakeFn(P, M0, f, c) ==
+  LET fc == IF f = 0 THEN 0 ELSE M0.frames[f].code
+      nd == f # 0 /\ P.codes[fc].kind = "func" /\
+            \E x \in NamesEs(P.codes, P.codes[c].dflt, 1) \cup NamesEs(P.codes, P.codes[c].kodflt, 1) :
+               x \notin P.loc[fc] /\ x \notin Range(P.codes[fc].globals) /\ Owner(P, M0, M0.frames[f].parent, x) # 0
+      M  == IF nd THEN Mark(M0, "ndflt") ELSE M0
+      d1 == EvalList(P, M, f, P.codes[c].dflt, 1, <<>>) IN
   IF IsExc(d1.r) THEN d1
   ELSE LET d2 == EvalList(P, d1.M, f, P.codes[c].kodflt, 1, <<>>) IN
        IF IsExc(d2.r) THEN d2
@@ -384,7 +395,9 @@ Stmt(P, M, f, s) ==
              M0 == IF f # 0 /\ P.codes[fc].kind = "func" /\ (Where(P, M, f, s.x) # f \/ s.x \in P.inner[fc])
                    THEN Mark(M, "excas") ELSE M
              r  == Exec(P, Store(P, M0, f, s.x, ExcObj), f, s.body, 1)
-         IN Res(StoreAt(r.M, Where(P, r.M, f, s.x), s.x, Unbound), r.r)
+             w  == Where(P, r.M, f, s.x)
+             M2 == IF Raw(r.M, w, s.x).k = "unbound" THEN Mark(r.M, "xdel") ELSE r.M
+         IN Res(StoreAt(M2, w, s.x, Unbound), r.r)
     [] s.k = "setattr" ->
          LET a == Eval(P, M, f, s.e) IN
          IF IsExc(a.r) THEN a
@@ -404,7 +417,7 @@ Expected(prog, flags) ==
              hascomp |-> [c \in 1..Len(prog.codes) |-> HasCompS(prog.codes[c].body, 1)]]
       M0 == [frames |-> <<>>, globs |-> [c \in {"main"} |-> [n \in names |-> Unbound]], ctx |-> <<"main">>,
              objs |-> <<>>, box |-> <<>>, log |-> <<>>, fuel |-> prog.fuel,
-             ndef |-> {}, marks |-> [m \in {"sv", "comp", "ucap", "excas"} |-> 0]]
+             ndef |-> {}, marks |-> [m \in {"sv", "xdel", "comp", "ucap", "excas", "ndflt"} |-> 0]]
       r  == Exec(P, M0, 0, prog.codes[1].body, 1)
   IN [log |-> IF IsExc(r.r) THEN Append(r.M.log, [s |-> 0, k |-> r.r.e, n |-> 0]) ELSE r.M.log, marks |-> r.M.marks]
 =============================================================================
